@@ -63,15 +63,17 @@ def gridShape : List Sel → List Nat
   | .int _ :: ss => gridShape ss
   | .range l :: ss => l.length :: gridShape ss
 
-/-- the value is broadcastable to the grid: rank at most the grid's, every extent (aligned at the
-right) 1 or the grid's, and the data has the size the shape says -/
+/-- extents pairwise 1 or equal -/
 def alignedOK : List Nat → List Nat → Bool
-  | [], _ => true
-  | _ :: _, [] => false
+  | [], [] => true
   | s :: ss, g :: gs => (s == 1 || s == g) && alignedOK ss gs
+  | _, _ => false
 
+/-- the value is broadcastable to the grid: its rank is at most the grid's; against the grid's last
+`rank` axes every extent is 1 or the grid's; the data has the size the shape says -/
 def Broadcastable (v : Val α) (grid : List Nat) : Bool :=
-  v.flat.length == prod v.shape && alignedOK v.shape.reverse grid.reverse
+  v.flat.length == prod v.shape && decide (v.shape.length ≤ grid.length)
+    && alignedOK v.shape (grid.drop (grid.length - v.shape.length))
 
 /-- element of `np.broadcast_to(value, grid)` at grid position `p` -/
 def bcastGet (v : Val α) (p : List Nat) : Option α :=
@@ -164,10 +166,22 @@ def stepNonzero : KeyPart → Bool
   | .int _ => true
   | .slice _ _ c => c != some 0
 
+/-- "broadcastable array values": the value can be broadcast to what the key selects (nothing is asked
+when the key itself is rejected) -/
+def valueFits (shape : List Nat) : Op α → Bool
+  | .set _ key v =>
+    match pySels (padKey key shape.length) shape with
+    | .ok sels => Broadcastable v (gridShape sels)
+    | .error _ => true
+  | .fancy idxs v => (listVals v (idxs.headD []).length).toBool
+  | .mask m v => (listVals v (maskKeys shape m).length).toBool
+
 /-- the assignments property C12 quantifies over: slices have a non-zero step; integer lists come
 one per axis with a common length; masks have the array's size; the data of a value has the size
-its shape says -/
-def WFOp (shape : List Nat) : Op α → Bool
+its shape says; the value is broadcastable to the selection -/
+def WFOp (shape : List Nat) (op : Op α) : Bool :=
+  valueFits shape op &&
+  match op with
   | .set _ key v => key.all stepNonzero && v.flat.length == prod v.shape
   | .fancy idxs v => idxs.length == shape.length && idxs.all (fun l => l.length == (idxs.headD []).length)
       && v.flat.length == prod v.shape
